@@ -43,6 +43,9 @@ def rhs_matrix(ode, max_tries: int | None = None) -> sympy.Matrix:
         # An intermediate that is a relation (g = Lt(x, 1)) is the number 1 or 0 where it is read
         if isinstance(expr, (sympy.core.relational.Relational, sympy.logic.boolalg.BooleanFunction)):
             return sympy.Piecewise((1, expr), (0, True))
+        if isinstance(expr, sympy.logic.boolalg.BooleanAtom):
+            # A relation that sympy could decide, e.g. Gt(x, x)
+            return sympy.Integer(1) if expr else sympy.Integer(0)
         return expr
 
     intermediates = {x.symbol: number(x.expr) for x in ode.intermediates}
